@@ -65,9 +65,16 @@ func vDataTypeOK(rr RR) bool {
 
 func vCheckDecoded(m *Message, rawLen int) {
 	vAssert(len(m.Question) <= rawLen && len(m.Answer) <= rawLen && len(m.Authority) <= rawLen && len(m.Additional) <= rawLen, "section sizes bounded by input length")
+	for _, q := range m.Question {
+		vAssert(len(q.Name) <= 2*rawLen, "decoded name no longer than the message (pointers only go backwards)")
+	}
 	for _, sec := range [][]RR{m.Answer, m.Authority, m.Additional} {
 		for _, rr := range sec {
 			vAssert(vDataTypeOK(rr), "RR data has the Go type implied by its type")
+			vAssert(len(rr.Name) <= 2*rawLen, "decoded name no longer than the message (pointers only go backwards)")
+			if n, ok := rr.Data.(string); ok {
+				vAssert(len(n) <= 2*rawLen, "decoded name no longer than the message (pointers only go backwards)")
+			}
 		}
 	}
 }
@@ -129,7 +136,9 @@ func verifC12RData() {
 		k = 6
 	}
 	rd := vBytes(vInt(0, k))
-	hdr := []byte{0, 0, 0x81, 0x80, 0, 0, 0, 1, 0, 0, 0, 0}
+	hdr := []byte{0, 0, 0x81, 0x80, 0, 0, 0, 0, 0, 0, 0, 0}
+	sec := vInt(0, 2) // the record sits in the answer, authority or additional section
+	hdr[7+2*sec] = 1
 	// the class is symbolic: the Go type of the data is implied by the record type alone
 	cls := []byte{0, 1}
 	if typ == 1 || typ == 28 || typ == 999 || typ == 37 || typ == 43 || typ == 48 {
@@ -143,8 +152,85 @@ func verifC12RData() {
 		return
 	}
 	vReach("decoded")
+	got := [][]RR{m.Answer, m.Authority, m.Additional}[sec]
+	vAssert(len(got) == 1 && got[0].Type == typ && len(m.Answer)+len(m.Authority)+len(m.Additional) == 1, "one record of the given type in the section that holds it")
+	vCheckDecoded(m, len(b))
+}
+
+// vOneRR wraps RDATA into a message with one answer RR (root owner, class IN).
+func vOneRR(typ uint16, rd []byte) []byte {
+	hdr := []byte{0, 0, 0x81, 0x80, 0, 0, 0, 1, 0, 0, 0, 0}
+	rr := []byte{0, byte(typ >> 8), byte(typ), 0, 1, 0, 0, 0, 60, byte(len(rd) >> 8), byte(len(rd))}
+	return append(append(hdr, rr...), rd...)
+}
+
+// verifC12Params: hostile RDATA behind a well-formed prefix, so that the inner
+// parsers are reached: SVCB/HTTPS SvcParams (key 0..8 or unknown, declared length
+// symbolic, value bytes symbolic - alpn lists, port, address hints, ech), the SOA
+// tail, the SRV target, the RRSIG signer and LOC.
+func verifC12Params() {
+	var typ uint16
+	var rd []byte
+	switch vInt(0, 5) {
+	case 0, 1:
+		typ = []uint16{65, 64}[vInt(0, 1)]
+		key := vUint16()
+		vAssume(key <= 8 || key == 0xff00)
+		vl := vInt(0, 9+4*vTier())
+		if key == 6 {
+			vl = []int{15, 16, 17, 32}[vInt(0, 3)]
+		}
+		val := vBytes(vl)
+		dl := vl + []int{0, 1, -1}[vInt(0, 2)] // declared length: exact, one too many, one too few
+		vAssume(dl >= 0)
+		rd = vCat([]byte{vByte(), vByte(), 0}, []byte{byte(key >> 8), byte(key), byte(dl >> 8), byte(dl)}, val)
+		if dl == vl && vBool() {
+			// a second parameter follows (keys must increase; the decoder may or may not insist)
+			rd = vCat(rd, []byte{0, vByte(), 0, 1}, vBytes(vInt(0, 2)))
+		}
+	case 2:
+		typ = 6
+		rd = vCat([]byte{0, 0}, vBytes([]int{0, 19, 20, 21}[vInt(0, 3)]))
+	case 3:
+		typ = 33
+		rd = vCat(make([]byte, 6), vBytes(vInt(0, 3))) // priority/weight/port are never branched on
+	case 4:
+		typ = 46
+		rd = vCat(make([]byte, 18), vBytes(vInt(0, 3))) // the fixed RRSIG fields are never branched on
+	case 5:
+		typ = 29
+		rd = vBytes([]int{15, 16, 17}[vInt(0, 2)])
+	}
+	b := vOneRR(typ, rd)
+	m, err := DecodeMessage(b)
+	if err != nil {
+		vReach("rejected")
+		return
+	}
+	vReach("decoded")
 	vAssert(len(m.Answer) == 1 && m.Answer[0].Type == typ, "one answer of the given type")
 	vCheckDecoded(m, len(b))
+}
+
+// verifC12Memory: header count fields far larger than the body can hold (each
+// 0, 1, 0x1000 or 0xffff) over a body of up to 4 symbolic bytes: the decoder's
+// allocations stay within a small polynomial of the message length.
+func verifC12Memory() {
+	cnt := func() []byte {
+		v := []int{0, 1, 0x1000, 0xffff}[vInt(0, 3)]
+		return []byte{byte(v >> 8), byte(v)}
+	}
+	b := vCat([]byte{0, 0, 0x81, 0x80}, cnt(), cnt(), cnt(), cnt(), vBytes(vInt(0, 4)))
+	before := vAllocated()
+	m, err := DecodeMessage(b)
+	used := vAllocated() - before
+	vAssert(used <= 16384+1024*int64(len(b)), "allocations bounded by a small polynomial of the message length, whatever the count fields claim")
+	if err == nil {
+		vCheckDecoded(m, len(b))
+		vReach("decoded")
+	} else {
+		vReach("rejected")
+	}
 }
 
 // verifC12Cycles: compression-pointer cycles that live in bytes which are never
@@ -170,4 +256,35 @@ func verifC12Cycles() {
 	}
 	vReach("decoded")
 	vCheckDecoded(m, len(b))
+}
+
+// verifC12FarPointers: compression pointers whose offset needs the high bits
+// (targets beyond offset 255): an opaque 260-byte RDATA in front, whose last
+// bytes are symbolic, then an owner name of up to 3 symbolic bytes.
+func verifC12FarPointers() {
+	opaque := vCat(make([]byte, 256), vBytes(4))
+	for i := 0; i < 256; i++ {
+		opaque[i] = 0xC0 // a pointer byte everywhere: masking the offset wrongly lands on a pointer to offset 0xC0C0 & mask
+	}
+	rr1 := vCat([]byte{0, 0x03, 0xe7, 0, 1, 0, 0, 0, 0, byte(len(opaque) >> 8), byte(len(opaque))}, opaque)
+	tail := vBytes(vInt(2, 3))
+	vAssume(tail[0] >= 0xC1) // a pointer with an offset of 256 or more
+	b := vCat([]byte{0, 0, 0x81, 0x80, 0, 0, 0, 2, 0, 0, 0, 0}, rr1, tail)
+	m, err := DecodeMessage(b)
+	if err != nil {
+		vReach("rejected")
+		return
+	}
+	vReach("decoded")
+	vCheckDecoded(m, len(b))
+	off := (int(tail[0])&0x3f)<<8 | int(tail[1])
+	vAssert(off < len(b), "a pointer that was followed lies inside the message (its full 14-bit offset)")
+}
+
+func vCat(parts ...[]byte) []byte {
+	var out []byte
+	for _, p := range parts {
+		out = append(out, p...)
+	}
+	return out
 }
